@@ -349,15 +349,27 @@ func c11Forwarder(c *core.Ctx) {
 	c.Decide(okWin, "R11.1", "header-parsed-from-unread-window", pos, "T and L are read consecutively from buffer[p:w]", "the type and length are not parsed consecutively from exactly the unread window buffer[parseCursor:writeCursor]: a header split across reads is misparsed")
 	// compaction
 	var cp *ssa.Call
+	dstWhole := false
 	core.Instrs(fn, func(in ssa.Instruction) {
-		if cl, ok := isBuiltinCall(in, "copy"); ok && sameVal(cl.Call.Args[0], buf) {
+		cl, ok := isBuiltinCall(in, "copy")
+		if !ok {
+			return
+		}
+		if sameVal(cl.Call.Args[0], buf) {
+			cp, dstWhole = cl, true
+			return
+		}
+		// a re-slice of the buffer as destination
+		if sl, ok := core.Strip(cl.Call.Args[0]).(*ssa.Slice); ok && sameVal(sl.X, buf) && cp == nil {
 			cp = cl
+			dstWhole = sl.High == nil && (sl.Low == nil || func() bool { k, isC := core.ConstInt(sl.Low); return isC && k == 0 }())
 		}
 	})
 	if cp == nil {
 		c.Und("R11.1", "compaction", pos, "no copy(buffer, …) found")
 		return
 	}
+	c.Decide(dstWhole, "R11.1", "compaction-destination-is-buffer-start", c.Pos(cp), "the unread window is copied to the start of the whole buffer", "compaction copies into a truncated or shifted part of the buffer: only some of the unread bytes are moved while the cursors are reset for all of them — the partially received block is delivered with corrupted bytes")
 	src, ok := core.Strip(cp.Call.Args[1]).(*ssa.Slice)
 	okSrc := ok && src.Low != nil && src.High != nil && sameVal(src.X, buf) && sameVal(src.High, W2)
 	// the parse cursor at the compaction point: P or the outer phi it feeds
